@@ -208,8 +208,9 @@ def run(ctx):
                             if v:
                                 got_any.add((True, o.obstacle_id))
                             if (o.obstacle_id in got_ids) != v:
-                                va = geom.desc_ring_relation(geom.desc_halved(d), ring2) if geom.has_circle(d) else 0
-                                if va is None or va == (o.obstacle_id in got_ids):
+                                circ = geom.has_circle(d)
+                                va = geom.desc_ring_relation(geom.desc_halved(d), ring2) if circ else "not-a-circle"
+                                if circ and (va is None or va == (o.obstacle_id in got_ids)):
                                     halved_only.add(o.obstacle_id)
                                     ctx.violation("C06/Lanelet.get_obstacles/wrong/circle/as-if-circle-radius-halved",
                                                   "obstacle %s on lanelet %d: got %s truth %s" % (
